@@ -964,6 +964,12 @@ fn gen_failmode(r: &mut Rng) -> Vec<Ent> {
         4 => ent(format!("{secret}/below").as_bytes(), Attrs::Unix(0o100644), rand_data(r)),
         _ => ent(format!("{secret}/").as_bytes(), Attrs::Unix(0o40755), vec![]),
     };
+    // the streaming extractor fails AFTER all files are written when only the central name is unsafe
+    let bad = if r.chance(1, 4) {
+        Ent { name: hostile_name(r), lname: Some(b"zfine".to_vec()), kind: 'f', attrs: Attrs::Unix(0o100644), data: rand_data(r) }
+    } else {
+        bad
+    };
     out.push(bad);
     if r.chance(1, 2) {
         out.push(ent(b"znever", Attrs::Unix(0o100600), rand_data(r)));
@@ -1022,6 +1028,8 @@ fn fixed_cases() -> Vec<Vec<Ent>> {
         vec![f("secret", u(0o100600), b"s"), f("bad", u(0o100644), b"crc")].into_iter().enumerate().map(|(i, mut e)| { if i == 1 { e.kind = 'c'; } e }).collect(),
         vec![f("d/", u(0o40700), b""), f("d/secret", u(0o100600), b"s"), f("../canary/evil", u(0o100644), b"x"), f("never", u(0o100600), b"n")],
         vec![f("secret", u(0o100400), b"s"), f("secret/below", u(0o100644), b"file/dir conflict")],
+        // streaming: all files written, the second central record is rejected
+        vec![f("secret", u(0o100600), b"s"), Ent { name: b"../canary/evil".to_vec(), lname: Some(b"fine".to_vec()), kind: 'f', attrs: u(0o100644), data: b"central hostile".to_vec() }, f("later", u(0o100600), b"l")],
         vec![Ent { name: b"central".to_vec(), lname: Some(b"local".to_vec()), kind: 'f', attrs: u(0o100600), data: b"names differ".to_vec() }],
         vec![Ent { name: b"central".to_vec(), lname: Some(b"../canary/evil".to_vec()), kind: 'f', attrs: u(0o100600), data: b"local hostile".to_vec() }],
         vec![Ent { name: b"../canary/evil".to_vec(), lname: Some(b"fine".to_vec()), kind: 'f', attrs: u(0o100600), data: b"central hostile".to_vec() }],
@@ -1060,7 +1068,7 @@ impl Stream for FsStream {
                   backslashes), symlink-typed entries, all 12 permission bits and type bits, DOS attributes, CRC errors, \
                   unsupported methods, local name != central name, nesting up to 60 levels; tree.failmode: a consistent tree with \
                   restrictive-mode files and directories followed by one entry that fails (bad CRC, unsupported method, unsafe \
-                  name, file/dir conflict), half as euid 65534 and half as the superuser, 2/3 seekable; tree.lockout: consistent plain \
+                  name, file/dir conflict, unsafe central name over a safe local name), half as euid 65534 and half as the superuser, 2/3 seekable; tree.lockout: consistent plain \
                   trees whose recorded modes lack owner write / search (directories listed before and after their contents, \
                   nested, read-only files and directories repeated later), 7/8 of them as euid 65534; umask in {022,002,077,027,000,777}; \
                   target directory present (modes 755/700/2755/1777/555) or absent; priv=0 (euid 65534) for a quarter of the cases \
@@ -1287,6 +1295,38 @@ impl Stream for FsStream {
                             let suid = exp & 0o6000 != 0;
                             if !(suid && !privileged) && *m != format!("{:o}", exp) {
                                 fail(format!("failed extraction left {key} with mode {m}, the archive records {:o} (entry written before the failing one)", exp));
+                            }
+                        }
+                    }
+                }
+            }
+        }
+        // 6. a failed streaming extraction whose files were all written (every local name safe, plain, consistent; no
+        //    damaged entry) and whose k-th central record is the first with an unsafe name: the central records before
+        //    it have their modes applied
+        if which == "stream" && class.starts_with("err") && ents.iter().all(|e| e.kind == 'f' && name_safe(e.local())) {
+            if let Some(k) = ents.iter().position(|e| !name_safe(&e.name)) {
+                let locals: Vec<Ent> = ents.iter().map(|e| Ent { name: e.local().to_vec(), lname: None, ..e.clone() }).collect();
+                let perms_never_block = privileged
+                    || (dmode & 0o300 == 0o300 && fmode & 0o200 == 0o200 && root_mode.map(|m| m & 0o300 == 0o300).unwrap_or(true));
+                let sgid_somewhere = root_mode.map(|m| m & 0o2000 != 0).unwrap_or(false)
+                    || ents.iter().any(|e| e.mode().map(|m| m & 0o2000 != 0).unwrap_or(false));
+                let prefix_same = ents[..k].iter().all(|e| e.lname.is_none());
+                if let (Some(_), Some(want), true, true, false) = (expected_tree(&locals), expected_tree(&ents[..k]), perms_never_block, prefix_same, sgid_somewhere) {
+                    let mut got: BTreeMap<String, String> = BTreeMap::new();
+                    for it in field("tree=").split(',') {
+                        let f: Vec<&str> = it.split(':').collect();
+                        if f.len() >= 3 {
+                            got.insert(f[0].to_string(), f[2].to_string());
+                        }
+                    }
+                    for (p, w) in &want {
+                        let key = render_path(p);
+                        let wm = match w { Want::Dir(m) => *m, Want::File(_, m) => *m };
+                        if let (Some(m), Some(exp)) = (got.get(&key), wm) {
+                            let suid = exp & 0o6000 != 0;
+                            if !(suid && !privileged) && *m != format!("{:o}", exp) {
+                                fail(format!("failed streaming extraction left {key} with mode {m}, the archive records {:o} (central record before the rejected one)", exp));
                             }
                         }
                     }
